@@ -21,6 +21,8 @@ type c24Names struct {
 	newLabel, getLabel, pushScope, popScope string
 }
 
+var c24WalkDirs = map[string]bool{}
+
 func init() {
 	real := c24Names{
 		rel: "sql/procedures", enum: "OpCode", opStruct: "InterpreterOperation",
@@ -580,6 +582,7 @@ func runC24(c *Ctx, nm c24Names, floorEmitted int) {
 				if inc.Tok == token.DEC {
 					dir = "backward"
 				}
+				c24WalkDirs[dir] = true
 				for _, op := range []string{nm.scopeBegin, nm.scopeEnd} {
 					want := mainEff[op]
 					if dir == "backward" {
@@ -592,6 +595,14 @@ func runC24(c *Ctx, nm c24Names, floorEmitted int) {
 				}
 				return false
 			})
+		}
+	}
+	if nWalk > 0 && !c.fixtureMode {
+		for _, dir := range []string{"forward", "backward"} {
+			if !c24WalkDirs[dir] {
+				c.Bad("C24-O6", DeclName(dispatch.fd)+"/"+dir+"/walker-missing", dispatch.stmt.Pos(),
+					fmt.Sprintf("the goto handler has no %s scope walk: a %s jump (LEAVE/IF/CASE skip forward, ITERATE/loops jump backward) crosses ScopeBegin/ScopeEnd operations without replaying them, so DECLAREd variables and handlers of the skipped block stay in (or fall out of) scope", dir, dir))
+			}
 		}
 	}
 	if nWalk == 0 && !c.fixtureMode {
